@@ -1480,7 +1480,8 @@ class PsiContour:
         )  # Starting location
         if not result.success:
             raise SolutionError("refinePointIntegrate failed to converge")
-        return Point2D(*result.y[:, 1])
+        # the solution at the end of the integration range (the integrator may take several steps)
+        return Point2D(*result.y[:, -1])
 
     def refinePoint(
         self, p, tangent, *, psi, width=None, atol=None, methods=None, **kwargs
